@@ -301,6 +301,74 @@ def fam_nested(E, kinds=(MOMENT, AFTER, DELAY), real=False, shared=False):
         E.prove(EQ(af[2], oe[2] + w), 'later-wait-unaffected-by-notification')
 
 
+def fam_reuse(E, kinds=(MOMENT, AFTER), real=False):
+    """one stored date notification object is used twice by the same activity, in two separate
+    phases: as the notification of an until-block around a sleep, or awaited directly inside an
+    until(time + x) block that may abandon the wait.  Every use is judged on its own by the
+    clock model - whatever an earlier (completed, abandoned or interrupted) use left behind in
+    the object must not matter."""
+    kind = kinds[E.pick('kind', len(kinds))]
+    u = E.num('u', 0, 40, real=real)
+    e = E.num('e', 0, 20, real=real)
+    use = [E.pick('use%d' % i, 2) for i in range(2)]
+    b = [E.num('b%d' % i, 0, 30, real=real) for i in range(2)]
+    gap = E.num('gap', 0, 20, real=real)
+    log = Log()
+
+    async def owner():
+        await at_cp(e, 0)
+        n = (time == u) if kind == MOMENT else (time >= u)
+        for i in range(2):
+            log('own', 'enter', i)
+            try:
+                if use[i] == 0:
+                    async with until(n):
+                        await (time + b[i])
+                        log('own', 'body-end', i)
+                else:
+                    async with until(time + b[i]):
+                        await n
+                        log('own', 'body-end', i)
+                log('own', 'exit', i, None)
+            except BaseException as exc:     # noqa
+                log('own', 'exit', i, exc)
+                return
+            await (time + gap)
+
+    out = simulate(owner(), log=log)
+    bad = classify_run_exception(out.exc, allowed=())
+    E.prove(bad is None, 'run-ends-normally', bad)
+    if out.exc is not None:
+        return
+    entry = e
+    for i in range(2):
+        en = [x for x in log.of('own', 'enter') if x[3] == i]
+        ex = [x for x in log.of('own', 'exit') if x[3] == i]
+        if not E.prove(len(en) == 1 and len(ex) == 1, 'blocks-left', ('use %d', i)):
+            return
+        E.prove(ex[0][4] is None, 'until-block-never-raises', ('%r', ex[0][4]))
+        E.prove(EQ(en[0][2], entry), 'enters-on-time')
+        t = trigger_model(kind, entry, u, None)
+        want = entry + b[i] if t is NEVER else MIN(t, entry + b[i])
+        E.prove(EQ(ex[0][2], want), 'block-ends-at-min(trigger,completion)',
+                ('use %d (%s) of a reused %s entered at %r: left at %r, expected %r', i,
+                 'until(n)' if use[i] == 0 else 'await n in until(time+b)', NAMES[kind], entry,
+                 ex[0][2], want))
+        done = any(x[3] == i for x in log.of('own', 'body-end'))
+        if use[i] == 1:
+            # the direct wait completes iff its date comes no later than the enclosing timeout
+            if t is not NEVER and LT(t, entry + b[i]):
+                E.prove(done, 'direct-wait-completes')
+            if t is NEVER or GT(t, entry + b[i]):
+                E.prove(not done, 'direct-wait-abandoned')
+                E.reach('first-wait-abandoned' if i == 0 else 'second-wait-abandoned')
+        if i == 1:
+            E.reach_if(True if t is NEVER else False, 'second-use-never')
+            if t is not NEVER:
+                E.reach_if(EQ(t, entry), 'second-use-already-true')
+        entry = want + gap
+
+
 def fam_till(E, real=False, ticker=True):
     start = E.num('start', -10, 10, real=real)
     dT = E.num('dT', 0, 40, real=real)
@@ -373,6 +441,10 @@ FAMILIES = [
            thorough=dict(kinds=(MOMENT, AFTER, DELAY), shared=True),
            reach=['equal-deadlines', 'outer-never'],
            bounds='two nested until-blocks on one and the same notification object'),
+    Family('reuse', fam_reuse, quick=dict(), thorough=dict(real=True),
+           reach=['first-wait-abandoned', 'second-use-already-true', 'second-use-never'],
+           bounds='a stored time == u / time >= u object used in two successive phases (until(n) '
+                  'around a sleep, or awaited inside until(time + b)), u in [0,40]'),
     Family('till', fam_till,
            quick=dict(ticker=False),
            thorough=dict(ticker=True),
